@@ -39,7 +39,7 @@ def handle (line : String) : String :=
     | "cia-open" | "cia-ops" => handleCia cmd args
     | "ncch-open" | "ncch-geom" | "ncch-ops" => handleNcch cmd args
     | "sd-iv" | "sd-key" => handleSd cmd args
-    | "cci-parse" | "cdn-select" => handleCci cmd args
+    | "cci-parse" | "cdn-select" | "sdtitle-select" => handleCci cmd args
     | "romfs-parse" | "romfs-lookup" | "romfs-rep" => handleRomfs cmd args
     | "tmd-load" | "tmd-roundtrip" | "tmd-ser" => handleTmd cmd args
     | "exefs-parse" | "exefs-build" | "exefs-norm" | "exefs-lookup" => handleExefs cmd args
